@@ -34,6 +34,9 @@ pub assume_specification<T: core::cmp::PartialEq> [<[T]>::contains] (s: &[T], x:
 pub assume_specification [i64::unsigned_abs] (x: i64) -> (r: u64)
     ensures r as int == (if x >= 0 { x as int } else { -(x as int) });
 
+pub assume_specification [i32::unsigned_abs] (x: i32) -> (r: u32)
+    ensures r as int == (if x >= 0 { x as int } else { -(x as int) });
+
 
 pub assume_specification [u128::overflowing_add] (a: u128, b: u128) -> (r: (u128, bool))
     ensures r.0 as int + (if r.1 { 0x1_0000_0000_0000_0000int * 0x1_0000_0000_0000_0000int } else { 0 }) == a as int + b as int;
